@@ -21,15 +21,23 @@ import (
 func TestC19MainTransports(t *testing.T) {
 	defer transport.SetConfig(&config.Config{})
 	hx.Check(t, hx.Scale(500, 20000), func(t *rapid.T) {
-		cfg, err := config.Load([]string{"fabio"}, nil)
-		if err != nil {
-			t.Fatal(err)
+		// the limits are given the way an operator gives them: as options, next to listeners with
+		// timeouts of their own (rt, wt, it), which are a different matter
+		ms := func(label string) time.Duration {
+			return time.Duration(rapid.IntRange(0, 100000).Draw(t, label)) * time.Millisecond
 		}
-		cfg.Proxy.ResponseHeaderTimeout = time.Duration(rapid.IntRange(0, 100000).Draw(t, "rht")) * time.Millisecond
-		cfg.Proxy.IdleConnTimeout = time.Duration(rapid.IntRange(0, 100000).Draw(t, "idle")) * time.Millisecond
-		cfg.Proxy.MaxConn = rapid.IntRange(0, 20000).Draw(t, "maxconn")
-		cfg.Proxy.DialTimeout = time.Duration(rapid.IntRange(0, 100000).Draw(t, "dial")) * time.Millisecond
-		cfg.Proxy.KeepAliveTimeout = time.Duration(rapid.IntRange(0, 100000).Draw(t, "ka")) * time.Millisecond
+		want := config.Proxy{ResponseHeaderTimeout: ms("rht"), IdleConnTimeout: ms("idle"), DialTimeout: ms("dial"), KeepAliveTimeout: ms("ka"), MaxConn: rapid.IntRange(0, 20000).Draw(t, "maxconn")}
+		listeners := rapid.SampledFrom([]string{":19999", ":19999;proto=http;rt=5s;wt=300ms", ":19999,:15432;proto=tcp;wt=300ms;rt=200ms", ":19999;it=1s,:15432;proto=tcp;wt=10ms", ":19999;proto=http;wt=1ms,:19998;proto=grpc"}).Draw(t, "proxy.addr")
+		args := []string{"fabio", "-proxy.addr", listeners,
+			"-proxy.responseheadertimeout", want.ResponseHeaderTimeout.String(), "-proxy.idleconntimeout", want.IdleConnTimeout.String(),
+			"-proxy.dialtimeout", want.DialTimeout.String(), "-proxy.keepalivetimeout", want.KeepAliveTimeout.String(), "-proxy.maxconn", fmt.Sprint(want.MaxConn)}
+		cfg, err := config.Load(args, nil)
+		if err != nil {
+			t.Fatalf("config rejected: %v %q", err, args)
+		}
+		if cfg.Proxy.ResponseHeaderTimeout != want.ResponseHeaderTimeout || cfg.Proxy.IdleConnTimeout != want.IdleConnTimeout || cfg.Proxy.DialTimeout != want.DialTimeout || cfg.Proxy.KeepAliveTimeout != want.KeepAliveTimeout || cfg.Proxy.MaxConn != want.MaxConn {
+			t.Fatalf("options %q loaded as responseheadertimeout=%v idleconntimeout=%v dialtimeout=%v keepalivetimeout=%v maxconn=%d", args[1:], cfg.Proxy.ResponseHeaderTimeout, cfg.Proxy.IdleConnTimeout, cfg.Proxy.DialTimeout, cfg.Proxy.KeepAliveTimeout, cfg.Proxy.MaxConn)
+		}
 		transport.SetConfig(cfg) // main(): transport.SetConfig(cfg)
 		h := flexAs[*proxy.HTTPProxy](newHTTPProxy, cfg, &proxy.HttpStatsHandler{Noroute: metrics.DiscardProvider{}.NewCounter("x")}, firstListen(cfg))
 		hx.Eval()
